@@ -368,3 +368,178 @@ theorem run_perm_done {ds ds' : List Ev} (hp : ds.Perm ds') : (∀ e ∈ ds, Ev.
     exact ih2 (fun e he => hd e (p1.mem_iff.2 he)) s s' (ih1 hd s s' h)
 
 end Ldk.MonGate
+
+/-! ## the channel-side gate model (`Gate`): held items are conserved -/
+namespace Ldk.MonGate.Gate
+open Ldk.MonGate
+
+/-- the four kinds of held vectors: monitor_pending_update_adds / _forwards / _failures / _finalized_fulfills -/
+inductive VK where
+  | adds | fwds | fails | fulfills
+  deriving DecidableEq, Repr
+
+def VK.of (k : VK) (p : Gen.Pend) : List Nat :=
+  match k with | .adds => p.adds | .fwds => p.fwds | .fails => p.fails | .fulfills => p.fulfills
+
+/-- items of kind `k` released by one output -/
+def Out.vec (k : VK) : Out → List Nat
+  | .adds l => if k = .adds then l else []
+  | .fwds l => if k = .fwds then l else []
+  | .fails l => if k = .fails then l else []
+  | .fulfills l => if k = .fulfills then l else []
+  | _ => []
+
+/-- all items of kind `k` released by an output list, in order -/
+def rel (k : VK) : List Out → List Nat
+  | [] => []
+  | o :: os => Out.vec k o ++ rel k os
+
+/-- items of kind `k` an op hands to the channel to be held (what a revoke_and_ack made irrevocable / forwardable) -/
+def Op.added (k : VK) : Op → List Nat
+  | .raaRecv _ _ _ a fw fl ff _ => match k with | .adds => a | .fwds => fw | .fails => fl | .fulfills => ff
+  | _ => []
+
+def addedAll (k : VK) : List Op → List Nat
+  | [] => []
+  | op :: ops => Op.added k op ++ addedAll k ops
+
+theorem rel_append (k : VK) (a b : List Out) : rel k (a ++ b) = rel k a ++ rel k b := by
+  induction a with
+  | nil => rfl
+  | cons o os ih => simp [rel, ih]
+
+theorem rel_ite_single (k : VK) (b : Bool) (o : Out) : rel k (if b then [o] else []) = if b then Out.vec k o else [] := by
+  cases b <;> simp [rel]
+
+theorem rel_outsOf (k : VK) (r : Gen.Restored) (cf : Bool) :
+    rel k (outsOf r cf) = match k with | .adds => r.adds | .fwds => r.fwds | .fails => r.fails | .fulfills => r.fulfills := by
+  have hv : ∀ (l : List Nat) (o : Out), rel k (if l.isEmpty then [] else [o]) = if l.isEmpty then [] else Out.vec k o := by
+    intro l o; cases l.isEmpty <;> simp [rel]
+  have hb : ∀ (b : Bool) (o : Out), Out.vec k o = [] → rel k (if b then [o] else []) = [] := by
+    intro b o h; cases b <;> simp [rel, h]
+  have hmsgs : rel k (if cf then (if r.cs then [Out.cs] else []) ++ (if r.raa then [Out.raa] else [])
+      else (if r.raa then [Out.raa] else []) ++ (if r.cs then [Out.cs] else [])) = [] := by
+    cases cf <;> simp [rel_append, hb _ _ (show Out.vec k Out.raa = [] from rfl), hb _ _ (show Out.vec k Out.cs = [] from rfl)]
+  unfold outsOf
+  simp only [rel_append, hv, hmsgs, hb _ _ (show Out.vec k Out.ready = [] from rfl), List.nil_append, List.append_nil]
+  cases k <;> simp [Out.vec] <;>
+    (first | (cases h : r.adds <;> simp) | (cases h : r.fwds <;> simp) | (cases h : r.fails <;> simp) | (cases h : r.fulfills <;> simp))
+
+theorem resume_conserves (k : VK) (c : Chan) :
+    rel k (resume c).2 ++ k.of (resume c).1.pend = k.of c.pend := by
+  unfold resume
+  split
+  · simp [rel]
+  · simp only [rel_outsOf]
+    cases k <;> simp [Gen.restored, VK.of]
+
+theorem handOver_conserves (k : VK) (c : Chan) (id : Nat) (ip : Bool) :
+    rel k (handOver c id ip).2 ++ k.of (handOver c id ip).1.pend = k.of c.pend := by
+  unfold handOver
+  simp only
+  split
+  · simp only [rel, Out.vec, List.nil_append]
+    rw [resume_conserves]
+  · simp [rel, Out.vec]
+
+theorem csRecvWhilePaused_vecs (k : VK) (p : Gen.Pend) (a b : Bool) : k.of (Gen.csRecvWhilePaused p a b).1 = k.of p := by
+  unfold Gen.csRecvWhilePaused
+  simp only
+  split <;> cases k <;> rfl
+
+/-- monitor_updating_paused EXTENDS the held vectors (this is the lemma an overwriting `=` breaks) -/
+theorem paused_vecs (k : VK) (p : Gen.Pend) (a b c : Bool) (fw fl ff : List Nat) :
+    k.of (Gen.paused p a b c fw fl ff) = k.of p ++ (match k with | .adds => [] | .fwds => fw | .fails => fl | .fulfills => ff) := by
+  cases k <;> simp [Gen.paused, VK.of]
+
+/-- every monitor_updating_paused call of revoke_and_ack passes the three vectors on -/
+theorem raaPauseArgs_vecs (freed rc : Bool) (fw fl ff : List Nat) : (Gen.raaPauseArgs freed rc fw fl ff).2 = (fw, fl, ff) := by
+  unfold Gen.raaPauseArgs
+  split
+  · rfl
+  · split <;> rfl
+
+theorem queueOrHand_conserves (k : VK) (c : Chan) (id : Nat) (ip : Bool) :
+    rel k (queueOrHand c id ip).2 ++ k.of (queueOrHand c id ip).1.pend = k.of c.pend := by
+  unfold queueOrHand
+  simp only
+  split
+  · simp [rel]
+  · exact handOver_conserves k _ _ _
+
+theorem csPre_vecs (k : VK) (c : Chan) (nc ar : Bool) : k.of (csPre c nc ar).pend = k.of c.pend := by
+  unfold csPre
+  split
+  · exact csRecvWhilePaused_vecs k _ _ _
+  · simp only [pauseWith]; rw [paused_vecs]; cases k <;> simp
+
+theorem step_conserves (k : VK) (c : Chan) (op : Op) :
+    rel k (step c op).2 ++ k.of (step c op).1.pend = k.of c.pend ++ Op.added k op := by
+  cases op with
+  | csRecv nc ar ip =>
+    simp only [step, Op.added, List.append_nil]
+    exact (queueOrHand_conserves k _ _ _).trans (csPre_vecs k c nc ar)
+  | raaRecv freed rc hold adds fw fl ff ip =>
+    simp only [step, Op.added]
+    split
+    · refine (handOver_conserves k _ _ _).trans ?_; simp only [pauseWith]; rw [paused_vecs, raaPauseArgs_vecs]
+      cases k <;> simp [Gen.raaAppendAdds, VK.of]
+    · simp only [rel, List.nil_append, pauseWith]; rw [paused_vecs, raaPauseArgs_vecs]
+      cases k <;> simp [Gen.raaAppendAdds, VK.of]
+  | claim ub ip =>
+    simp only [step, Op.added, List.append_nil]
+    split
+    · refine (handOver_conserves k _ _ _).trans ?_; simp only [pauseWith]; rw [paused_vecs]; cases k <;> simp
+    · refine (handOver_conserves k _ _ _).trans ?_; simp only [pauseWith]; rw [paused_vecs]; cases k <;> simp
+  | send ip =>
+    simp only [step, Op.added, List.append_nil]
+    split
+    · simp [rel]
+    · refine (queueOrHand_conserves k _ _ _).trans ?_; simp only [pauseWith]; rw [paused_vecs]; cases k <;> simp
+  | other ip =>
+    simp only [step, Op.added, List.append_nil]
+    refine (queueOrHand_conserves k _ _ _).trans ?_; simp only [pauseWith]; rw [paused_vecs]; cases k <;> simp
+  | complete id =>
+    simp only [step, Op.added, List.append_nil]
+    split
+    · split
+      · split
+        · simp [rel]
+        · split
+          · exact resume_conserves k _
+          · simp [rel]
+      · simp [rel]
+    · simp [rel]
+  | unblock ip =>
+    simp only [step, Op.added, List.append_nil]
+    split
+    · simp [rel]
+    · exact handOver_conserves k _ _ _
+  | confirm =>
+    simp only [step, Op.added, List.append_nil]
+    have : ∀ b : Bool, rel k (if b then [Out.ready] else []) = [] := by intro b; cases b <;> simp [rel, Out.vec]
+    rw [this]; cases k <;> simp [VK.of]
+  | disconnect => simp [step, Op.added, rel]
+  | reestablish nr ncs rcase =>
+    simp only [step, Op.added, List.append_nil]
+    have h1 : ∀ (b : Bool) (o : Out), Out.vec k o = [] → rel k (if b then [o] else []) = [] := by
+      intro b o h; cases b <;> simp [rel, h]
+    have h0 : ∀ (b : Bool) (o : Out), Out.vec k o = [] → rel k (if b then [] else [o]) = [] := by
+      intro b o h; cases b <;> simp [rel, h]
+    have hz : rel k ([] : List Out) = [] := rfl
+    simp only [rel_append]
+    repeat' split
+    all_goals simp only [rel_append, h1 _ _ (show Out.vec k Out.ready = [] from rfl), h1 _ _ (show Out.vec k Out.readyResent = [] from rfl),
+      h0 _ _ (show Out.vec k Out.ready = [] from rfl), h1 _ _ (show Out.vec k Out.cs = [] from rfl), h1 _ _ (show Out.vec k Out.raa = [] from rfl), hz, List.nil_append]
+    all_goals cases k <;> simp [VK.of, rel, Out.vec]
+
+theorem run_conserves (k : VK) (ops : List Op) : ∀ c : Chan,
+    rel k (run c ops).2 ++ k.of (run c ops).1.pend = k.of c.pend ++ addedAll k ops := by
+  induction ops with
+  | nil => intro c; simp [run, rel, addedAll]
+  | cons op ops ih =>
+    intro c
+    simp only [run, rel_append, addedAll, List.append_assoc]
+    rw [ih (step c op).1, ← List.append_assoc, step_conserves, List.append_assoc]
+
+end Ldk.MonGate.Gate
